@@ -10,7 +10,14 @@
 //! sibling entry (a kind-f entry with the same content), hf hard link to a file outside, hs hard link to the sibling entry,
 //! ld link to directory, ld2 link to link to directory, dl dangling link, lo link to itself |
 //! 4 hex(plan TOML) 5 expected plan | 6 hex(store TOML) or none 7 expected store | 8 hex(buildpack.toml) 9 expected descriptor |
-//! 10 (optional) other variables of the process environment, `hexname=hexvalue,…` (none of them named like an input)
+//! 10 (optional) other variables of the process environment, `hexname=hexvalue,…` (none of them named like an input; `-` = none)
+//! 11 (optional, needs field 10) the *texts* of the paths the platform hands over, `hex(layers)/hex(platform)/hex(plan)/hex(bp)/hex(cwd)`:
+//! the three positional arguments (`-` for layers in detect), the value of CNB_BUILDPACK_DIR, the path the working directory is
+//! entered by. `$T` in a text stands for the case's temp root; a text not starting with `/` is relative to the working directory.
+//! Without field 11 every path is the plain absolute `$T/<name>`. With it the temp root also holds (see `scaffold`): `mnt -> .`,
+//! `vol/0f3a -> $T`, `sub/`, `sub2/inner/`, `sub/up -> ../sub2/inner`, `ln-app ln-bp ln-layers ln-plat ln-plan` (links to the five
+//! objects themselves) and, inside the app directory, `rel-bp rel-layers rel-plat rel-plan` (links to the other four). A text that
+//! does not lead to the object it is meant for is refused (`bad-fields`).
 use cnbv::*;
 use std::ffi::OsString;
 use std::os::unix::ffi::{OsStrExt, OsStringExt};
@@ -24,7 +31,7 @@ fn os(b: &[u8]) -> OsString { OsString::from_vec(b.to_vec()) }
 const INPUT_VARS: &[&str] = &["CNB_TARGET_OS", "CNB_TARGET_ARCH", "CNB_TARGET_ARCH_VARIANT", "CNB_TARGET_DISTRO_NAME", "CNB_TARGET_DISTRO_VERSION", "CNB_BUILDPACK_DIR", "TBP_OUT", "TBP_DETECT", "TBP_BUILD"];
 
 fn run_case(f: &[String]) -> String {
-    if f.len() != 10 && f.len() != 11 { return "bad-fields".into(); }
+    if f.len() != 10 && f.len() != 11 && f.len() != 12 { return "bad-fields".into(); }
     let phase = f[0].as_str();
     let tmp = tempfile::Builder::new().prefix("c06-").tempdir().unwrap();
     let t = std::fs::canonicalize(tmp.path()).unwrap();
@@ -96,11 +103,41 @@ fn run_case(f: &[String]) -> String {
         if f[6] != "none" { std::fs::write(layers.join("store.toml"), unhex(&f[6]).unwrap()).unwrap(); }
     }
     let mut cmd = Command::new(&exe);
-    if phase == "build" { cmd.args([&layers, &plat, &bpplan]); } else { cmd.args([&plat, &work.join("plan.toml")]); }
-    cmd.env_clear().current_dir(&app).stdin(Stdio::null()).stdout(Stdio::null()).stderr(Stdio::null());
-    cmd.env("CNB_BUILDPACK_DIR", &bp).env("TBP_OUT", &out).env("TBP_DETECT", "pass").env("TBP_BUILD", "ok:");
+    let plan_file = if phase == "build" { bpplan.clone() } else { work.join("plan.toml") };
+    if f.len() == 12 {
+        // the path texts of field 11, handed over as written
+        let names_s: Vec<OsString> = names.iter().map(|n| os(n)).collect();
+        if scaffold(&t, &names_s, &plan_file).is_err() { return "bad-fields".into(); }
+        let tx: Vec<&str> = f[11].split('/').collect();
+        if tx.len() != 5 || (tx[0] == "-") != (phase == "detect") { return "bad-fields".into(); }
+        let mut texts: Vec<Option<OsString>> = vec![];
+        for (k, h) in tx.iter().enumerate() {
+            if k == 0 && *h == "-" { texts.push(None); continue; }
+            let Some(b) = unhex(h) else { return "bad-fields".into() };
+            if b.is_empty() || b.contains(&0) { return "bad-fields".into(); }
+            texts.push(Some(os(&subst_root(&b, t.as_os_str().as_bytes()))));
+        }
+        // every text must lead to the object it stands for (relative ones from the working directory); an object that does
+        // not exist (no platform directory, detect's plan file) has nothing to be compared with
+        let objects: [&PathBuf; 5] = [&layers, &plat, &plan_file, &bp, &app];
+        for (k, tx) in texts.iter().enumerate() {
+            let Some(tx) = tx else { continue };
+            if k == 4 && !tx.as_bytes().starts_with(b"/") { return "bad-fields".into(); }
+            let Ok(want) = std::fs::canonicalize(objects[k]) else { continue };
+            if std::fs::canonicalize(app.join(tx)).ok() != Some(want) { return "bad-fields".into(); }
+        }
+        if let Some(l) = &texts[0] { cmd.arg(l); }
+        cmd.arg(texts[1].as_ref().unwrap()).arg(texts[2].as_ref().unwrap());
+        cmd.env_clear().current_dir(texts[4].as_ref().unwrap()).stdin(Stdio::null()).stdout(Stdio::null()).stderr(Stdio::null());
+        cmd.env("CNB_BUILDPACK_DIR", texts[3].as_ref().unwrap());
+    } else {
+        if phase == "build" { cmd.args([&layers, &plat, &bpplan]); } else { cmd.args([&plat, &plan_file]); }
+        cmd.env_clear().current_dir(&app).stdin(Stdio::null()).stdout(Stdio::null()).stderr(Stdio::null());
+        cmd.env("CNB_BUILDPACK_DIR", &bp);
+    }
+    cmd.env("TBP_OUT", &out).env("TBP_DETECT", "pass").env("TBP_BUILD", "ok:");
     let vnames = ["CNB_TARGET_OS", "CNB_TARGET_ARCH", "CNB_TARGET_ARCH_VARIANT", "CNB_TARGET_DISTRO_NAME", "CNB_TARGET_DISTRO_VERSION"];
-    if f.len() == 11 {
+    if f.len() >= 11 {
         for kv in split_list(&f[10], ",") {
             let Some((n, v)) = kv.split_once('=') else { return "bad-fields".into() };
             let (Some(n), Some(v)) = (unhex(n), unhex(v)) else { return "bad-fields".into() };
@@ -114,11 +151,12 @@ fn run_case(f: &[String]) -> String {
     let dump = std::fs::read_to_string(out.join("context.dump")).ok();
     match (status.code(), kinds.len(), dump) {
         (Some(0), 0, Some(d)) => {
-            // temp root -> $T in the three directory fields
+            // temp root -> $T in the three directory fields (the first place it occurs: `//tmp/x` is `/$T`); nothing else is
+            // touched, the text the context reports is kept verbatim
             let root = t.as_os_str().as_bytes();
             let parts: Vec<String> = d.split(';').map(|kv| {
                 for key in ["app=", "bp=", "layers="] {
-                    if let Some(h) = kv.strip_prefix(key) { if let Some(b) = unhex(h) { if b.starts_with(root) { let mut nb = b"$T".to_vec(); nb.extend_from_slice(&b[root.len()..]); return format!("{key}{}", hex(&nb)); } } }
+                    if let Some(h) = kv.strip_prefix(key) { if let Some(b) = unhex(h) { if let Some(at) = b.windows(root.len()).position(|w| w == root) { let mut nb = b[..at].to_vec(); nb.extend_from_slice(b"$T"); nb.extend_from_slice(&b[at + root.len()..]); return format!("{key}{}", hex(&nb)); } } }
                 }
                 kv.to_string()
             }).collect();
@@ -127,6 +165,37 @@ fn run_case(f: &[String]) -> String {
         (Some(1), 1, None) => format!("err:{}", kinds[0]),
         (c, n, d) => format!("weird:exit={c:?},onerr={n},dump={}", d.is_some()),
     }
+}
+
+/// `$T` -> the temp root (every occurrence)
+fn subst_root(text: &[u8], root: &[u8]) -> Vec<u8> {
+    let mut o = vec![];
+    let mut i = 0;
+    while i < text.len() { if text[i..].starts_with(b"$T") { o.extend_from_slice(root); i += 2; } else { o.push(text[i]); i += 1; } }
+    o
+}
+
+/// what a case with path texts (field 11) finds in its temp root beside the objects themselves; `names` = app, bp, layers
+fn scaffold(t: &std::path::Path, names: &[OsString], plan_file: &std::path::Path) -> std::io::Result<()> {
+    use std::os::unix::fs::symlink;
+    symlink(".", t.join("mnt"))?;                                   // a parent that is a (relative) link
+    std::fs::create_dir(t.join("vol"))?;
+    symlink(t, t.join("vol").join("0f3a"))?;                        // a parent that is an (absolute) link, one level down
+    std::fs::create_dir(t.join("sub"))?;                            // `sub/..`
+    std::fs::create_dir_all(t.join("sub2").join("inner"))?;
+    symlink("../sub2/inner", t.join("sub").join("up"))?;            // `sub/up/../..`: `..` after a link
+    let plan_rel = std::path::Path::new("work").join(plan_file.file_name().unwrap());
+    symlink(t.join(&names[0]), t.join("ln-app"))?;                  // the objects themselves behind links
+    symlink(&names[1], t.join("ln-bp"))?;
+    symlink(t.join(&names[2]), t.join("ln-layers"))?;
+    symlink("plat", t.join("ln-plat"))?;
+    symlink(&plan_rel, t.join("ln-plan"))?;
+    let app = t.join(&names[0]);                                    // and reachable by a bare name from the working directory
+    symlink(std::path::Path::new("..").join(&names[1]), app.join("rel-bp"))?;
+    symlink(std::path::Path::new("..").join(&names[2]), app.join("rel-layers"))?;
+    symlink("../plat", app.join("rel-plat"))?;
+    symlink(std::path::Path::new("..").join(&plan_rel), app.join("rel-plan"))?;
+    Ok(())
 }
 
 // ------------------------------------------------------------------------------------------------- TOML trees
@@ -493,6 +562,150 @@ fn deep_table(depth: usize) -> Vec<(String, TV)> {
     vec![("deep".into(), v)]
 }
 
+
+// ------------------------------------------------------------------------------------------------- path texts (field 11)
+/// the five paths the platform hands over, in the order of field 11
+const PATH_KEYS: [&str; 5] = ["layers", "plat", "plan", "bp", "cwd"];
+
+/// every spelling of one path: (tag, text). `n` = the object's place below the temp root (`l-layers`, `plat`, `work/bpplan.toml`, …),
+/// `which` = its position in `PATH_KEYS`, `app` = the name of the app directory (= the working directory, what relative texts start
+/// from). A directory takes the trailing-slash / trailing-dot spellings, the plan file does not; the working directory has to be
+/// entered by an absolute path, so it takes no relative spelling.
+fn spellings(which: usize, n: &str, app: &str) -> Vec<(&'static str, String)> {
+    let ln = ["ln-layers", "ln-plat", "ln-plan", "ln-bp", "ln-app"][which];
+    let rel = ["rel-layers", "rel-plat", "rel-plan", "rel-bp", ""][which];
+    let dir = which != 2;
+    let mut v: Vec<(&'static str, String)> = vec![
+        ("plain", format!("$T/{n}")),
+        ("symparent", format!("$T/mnt/{n}")),                       // <root>/mnt -> . : a parent of the path is a link
+        ("symparent-abs", format!("$T/vol/0f3a/{n}")),              // <root>/vol/0f3a -> <root>
+        ("symparent-chain", format!("$T/mnt/mnt/vol/0f3a/{n}")),
+        ("selflink", format!("$T/{ln}")),                           // the object itself is a link
+        ("selflink-symparent", format!("$T/vol/0f3a/{ln}")),
+        ("dot", format!("$T/./{n}")),
+        ("dotdot", format!("$T/sub/../{n}")),
+        ("dotdot-after-link", format!("$T/sub/up/../../{n}")),      // `..` taken from the link's target
+        ("dslash", format!("$T//{n}")),
+        ("dslash-lead", format!("/$T/{n}")),
+        ("dot-dslash-symparent", format!("$T/.//mnt/./{n}")),
+    ];
+    if dir {
+        v.extend([("tslash", format!("$T/{n}/")), ("tslash2", format!("$T/{n}//")), ("tdot", format!("$T/{n}/.")), ("dotdot-self", format!("$T/{n}/../{n}")),
+            ("selflink-tslash", format!("$T/{ln}/")), ("symparent-dotdot-tslash", format!("$T/mnt/sub/../{ln}/"))]);
+    }
+    if which != 4 {
+        v.extend([("rel-up", format!("../{n}")), ("rel-dot-up", format!("./../{n}")), ("rel-up-symparent", format!("../mnt/{n}")), ("rel-up-dslash", format!("..//{n}")),
+            ("rel-up-selflink", format!("../{ln}")), ("rel-name", rel.to_string()), ("rel-dot-name", format!("./{rel}")), ("rel-through-cwd", format!("../{app}/../{n}")),
+            ("rel-up-up", format!("../sub/../{n}"))]);
+        if dir { v.extend([("rel-up-tslash", format!("../{n}/")), ("rel-dot-name-tslash", format!("./{rel}/")), ("rel-name-tdot", format!("{rel}/."))]); }
+    }
+    v
+}
+
+/// names of the case's objects below the temp root, in the order of `PATH_KEYS`
+fn object_names(c: &Case) -> [String; 5] {
+    let d: Vec<String> = c.fields[1].split('/').take(3).map(|h| String::from_utf8(unhex(h).unwrap()).unwrap()).collect();
+    [d[2].clone(), "plat".into(), if c.fields[0] == "build" { "work/bpplan.toml".into() } else { "work/plan.toml".into() }, d[1].clone(), d[0].clone()]
+}
+
+/// gives the case field 11: path number k is written in its spelling number `choice[k]` (modulo the number it has)
+fn set_spellings(c: &mut Case, choice: [usize; 5]) {
+    let names = object_names(c);
+    let mut texts = vec![];
+    let mut odd = 0;
+    for k in 0..5 {
+        if k == 0 && c.fields[0] == "detect" { texts.push("-".to_string()); continue; }
+        let sp = spellings(k, &names[k], &names[4]);
+        let (tag, text) = &sp[choice[k] % sp.len()];
+        if *tag != "plain" { odd += 1; }
+        c.tags.push((format!("sp_{}", PATH_KEYS[k]), tag.to_string()));
+        texts.push(hex(text.as_bytes()));
+    }
+    while c.fields.len() < 11 { c.fields.push("-".into()); }
+    c.fields.truncate(11);
+    c.fields.push(texts.join("/"));
+    c.tags.push(("spelled".into(), odd.to_string()));
+    if odd > 0 { c.nontrivial = true; }
+}
+
+/// (12) the spelling of every path the platform hands over
+fn directed_paths(tier: &str, seed: u64, emit: &mut dyn FnMut(Case)) {
+    let thorough = tier == "thorough";
+    let mut idx = 0u64;
+    let mut rng = |salt: u64| { idx += 1; Rng::for_case(seed ^ salt, 0x9A7500 + idx) };
+    let most = spellings(0, "x", "a").len();
+    for phase in ["build", "detect"] {
+        // every spelling of one path, the other four plain; then all five in the same spelling
+        for k in 0..5 {
+            if k == 0 && phase == "detect" { continue; }
+            for j in 1..spellings(k, "x", "a").len() {
+                let mut r = rng(0x9A71);
+                let mut c = base_case(&mut r, "paths", Some(phase));
+                let mut ch = [0usize; 5]; ch[k] = j;
+                set_spellings(&mut c, ch);
+                c.tags.push(("sub".into(), format!("one-{}", PATH_KEYS[k])));
+                emit(c);
+            }
+        }
+        for j in 0..most {
+            let mut r = rng(0x9A72);
+            let mut c = base_case(&mut r, "paths", Some(phase));
+            // a spelling a path does not have (relative for the working directory, trailing slash for the plan file) = plain
+            let names = object_names(&c);
+            let tag = spellings(0, &names[0], &names[4])[j].0;
+            let mut ch = [0usize; 5];
+            for k in 0..5 { ch[k] = spellings(k, &names[k], &names[4]).iter().position(|(t, _)| *t == tag).unwrap_or(0); }
+            set_spellings(&mut c, ch);
+            c.tags.push(("sub".into(), "all-same".into()));
+            emit(c);
+        }
+    }
+    // the platform directory's states and link placements x its spellings (the directory is not in the context: a spelling must not
+    // change what is read from it)
+    for p in ["noplat", "noenv", "notdir", "envdangling", "envlinkfile", "-", "listing"] { for flags in ["", "p", "e", "ep"] { for round in 0..2 {
+        let mut r = rng(0x9A73);
+        let mut c = with_listing(&mut r, "paths", "platstate", vec![entry(b"FOO", "f", b"bar"), entry(b"LINKED", "lr", b"v\n"), entry(b"DIR", "d", b"")], flags);
+        if p != "listing" { c.fields[3] = p.to_string(); }
+        let j = 1 + r.below(64) as usize;
+        set_spellings(&mut c, [if round == 0 { 0 } else { r.below(64) as usize }, j, 0, 0, 0]);
+        emit(c);
+    } } }
+    // a PWD / OLDPWD left in the process environment that names the directory differently (or names another one): the app directory
+    // is the working directory, not what a variable says
+    for pwd in [&b"$T/mnt/a-app"[..], b"/", b"/nonexistent", b".", b""] { for phase in ["build", "detect"] {
+        let mut r = rng(0x9A74);
+        let mut c = base_case(&mut r, "paths", Some(phase));
+        set_spellings(&mut c, [r.below(64) as usize, r.below(64) as usize, r.below(64) as usize, r.below(64) as usize, 1 + r.below(17) as usize]);
+        c.fields[10] = format!("{}={},{}={}", hex(b"PWD"), hex(pwd), hex(b"OLDPWD"), hex(b"/tmp"));
+        c.tags.push(("sub".into(), "pwd".into()));
+        emit(c);
+    } }
+    // NOT in the default stream (open question, see propcfg `rule`): a directory name that is not UTF-8. As `<layers>` argument it makes
+    // `std::env::args()` panic (exit 101), as CNB_BUILDPACK_DIR it ends the process with exit 254 before any context exists; neither goes
+    // through `on_error`. Only with VERIF_C06_NONUTF8_PATHS set.
+    if std::env::var("VERIF_C06_NONUTF8_PATHS").is_ok() {
+        for which in 0..3 { for phase in ["build", "detect"] {
+            let mut r = rng(0x9A76);
+            let mut c = base_case(&mut r, "paths", Some(phase));
+            let mut d: Vec<String> = c.fields[1].split('/').map(str::to_string).collect();
+            d[which] = hex([&b"a-\xff"[..], b"b-\xff", b"l-\xff"][which]);
+            c.fields[1] = d.join("/");
+            c.tags.push(("sub".into(), format!("nonutf8-{}", ["app", "bp", "layers"][which])));
+            emit(c);
+        } }
+    }
+    // seeded combinations (over every platform state, listing, target class `ok`, document the base case draws)
+    for _ in 0..(if thorough { 6000 } else { 300 }) {
+        let mut r = rng(0x9A75);
+        let mut c = base_case(&mut r, "paths", None);
+        let mut ch = [0usize; 5];
+        for k in 0..5 { ch[k] = if r.chance(1, 4) { 0 } else { r.below(64) as usize }; }
+        set_spellings(&mut c, ch);
+        c.tags.push(("sub".into(), "combo".into()));
+        emit(c);
+    }
+}
+
 fn directed(tier: &str, seed: u64, emit: &mut dyn FnMut(Case)) {
     let thorough = tier == "thorough";
     let mut idx = 0u64;
@@ -707,7 +920,14 @@ fn generate(tier: &str, seed: u64, emit: &mut dyn FnMut(Case)) {
         emit(gen_case(&mut r, "head", Some(cls)));
     }
     directed(tier, seed, emit);
-    for idx in 0..n { let mut r = Rng::for_case(seed, idx); emit(gen_case(&mut r, "gen", None)); }
+    directed_paths(tier, seed, emit);
+    // the seeded stream; one case in four hands its paths over in other spellings (drawn last: the rest of the case is what it was)
+    for idx in 0..n {
+        let mut r = Rng::for_case(seed, idx);
+        let mut c = gen_case(&mut r, "gen", None);
+        if r.chance(1, 4) { let mut ch = [0usize; 5]; for k in 0..5 { ch[k] = if r.chance(1, 3) { 0 } else { r.below(64) as usize }; } set_spellings(&mut c, ch); }
+        emit(c);
+    }
 }
 
 fn main() { main_loop_jobs("c06", 14, &generate, &run_case); }
